@@ -38,6 +38,7 @@ type run struct {
 	px   *proxy
 	p    *pruner.Pruner
 	obs  pruneObs
+	idx  []uint64 // block indices compared (nil = all)
 	e    uint64 // intended floor: largest oldest-to-keep decided so far
 	tag  string
 }
@@ -66,7 +67,7 @@ func (r *run) probe(d db.KeyValueReader, head uint64) map[string]string {
 	}
 	fams := []string{"hdr", "h2n", "txs", "txl", "l1l", "su", "cm", "hist", "histnew"}
 	bufs := map[string][]byte{}
-	for n := uint64(0); n <= head; n++ {
+	for _, n := range r.indices(head) {
 		b := r.bl[n]
 		_, e1 := core.GetBlockHeaderHashByNumber(d, n)
 		bufs["hdr"] = append(bufs["hdr"], bit(e1))
@@ -133,6 +134,22 @@ func (r *run) probe(d db.KeyValueReader, head uint64) map[string]string {
 	return out
 }
 
+func (r *run) indices(head uint64) []uint64 {
+	var out []uint64
+	if r.idx == nil {
+		for n := uint64(0); n <= head; n++ {
+			out = append(out, n)
+		}
+		return out
+	}
+	for _, n := range r.idx {
+		if n <= head {
+			out = append(out, n)
+		}
+	}
+	return out
+}
+
 func be64(n uint64) []byte {
 	return []byte{byte(n >> 56), byte(n >> 48), byte(n >> 40), byte(n >> 32), byte(n >> 24), byte(n >> 16), byte(n >> 8), byte(n)}
 }
@@ -177,7 +194,7 @@ func (r *run) compareTwin(B *Node, e uint64, ctx string, withModelAns bool) {
 		return
 	}
 	impl := map[string][]byte{}
-	for n := uint64(0); n <= head; n++ {
+	for _, n := range r.indices(head) {
 		oa := observeBlock(r.A.BC, r.bl[n])
 		ob := observeBlock(B.BC, r.bl[n])
 		for _, name := range accNames {
